@@ -1,5 +1,5 @@
 # Per-property prose for MANIFEST.json.
-HOOK_COMMITS = ["c0392a7 verif hook: dvid.VerifPoint (no-op unless built with tag verif)", "086a371 verif hook: read-only identifier-map introspection shim (build tag verif)", "f834000 verif hook: RPC switchboard and server-mode shims (build tag verif)"]
+HOOK_COMMITS = ["c0392a7 verif hook: dvid.VerifPoint (no-op unless built with tag verif)", "086a371 verif hook: read-only identifier-map introspection shim (build tag verif)", "f834000 verif hook: RPC switchboard and server-mode shims (build tag verif)", "7b8e95b verif hook: write points in the Badger engine (VerifPoint before/after put, delete, batch commit)", "d6199fd verif hook: write points in the file log (header / payload / sync)", "7302290 verif hook: write points in the server mutation log"]
 NOT_APPLICABLE = {}
 TEXT = {
     "C15": {
@@ -46,6 +46,11 @@ TEXT = {
         "technique": "property-based testing (rapid): stateful histories against a real server process with restart pseudo-ops; metamorphic oracle before-restart snapshot == after-restart snapshot over every observable",
         "level_text": "Generated multi-datatype histories run in a child process that performs the DoServe initialisation on real Badger/file-log/mutation-log stores; at generated points the process is shut down cleanly or SIGKILLed while idle and a new process is started on the same directories; the complete observable state (repos, DAG, flags, notes, logs, branch resolution, instance settings, every read endpoint of every instance at every version) must be identical. Only a fresh process sees state rebuilt from disk, which the in-process reopen helper cannot show.",
         "level_note": "<=~35 ops and <=5 restarts per history; labelmap extent 2x2x2 blocks of 16^3; set-valued answers (supervoxel lists, field names, element lists, block streams) are compared order-independently; crash = SIGKILL of an idle process (no power-loss semantics).",
+    },
+    "C04": {
+        "technique": "property-based testing (rapid) with fault injection: generated workloads against a real server process, the process killed at every write point of a generated target operation (and again during recovery), reference-execution and before/after snapshot oracles; generated file logs cut at every byte length with a prefix oracle",
+        "level_text": "For each generated (workload, target operation) the check enumerates every write point the target passes (recorded from an uninterrupted execution through build-tag hooks in the Badger engine, the file log and the mutation log), kills the server at each one on a fresh re-execution, restarts it (optionally killing the recovery start-up too) and decides: start succeeds, metadata well formed, untouched observables unchanged, repo-level / single-key targets entirely absent or entirely present, retry works, later acknowledged work survives the next restart. File logs are cut at every byte length and must read back exactly the complete records, also after further appends.",
+        "level_note": "Fault enumeration is complete over the instrumented write points of the chosen target operation (thorough tier; the quick tier takes an evenly spaced subset of 8), not over all operations of all workloads: workloads and targets are sampled by rapid. Crash = process death with the OS surviving.",
     },
     "C12": {
         "technique": "property-based testing (rapid): stateful allocation histories against a real server process with restart / SIGKILL / crash-at-write-point pseudo-ops; history invariant oracle (uniqueness and monotonicity of every identifier the server hands out)",
